@@ -273,9 +273,11 @@ def explore_part(sub):
 
     def on_leaf(run, res):
         hist, rows, values, xy = res
-        g = groups.get(hist)
+        gk = (hist, run.world)      # draws after a library-side re-seed are not random (see finalize)
+        g = groups.get(gk)
         if g is None:
-            g = groups[hist] = {'w': F(0), 'acc': {}, 'rows': rows, 'xy': xy, 'outcomes': set(), 'float': False}
+            g = groups[gk] = {'w': F(0), 'acc': {}, 'rows': rows, 'xy': xy, 'outcomes': set(), 'float': False,
+                              'reseeded': '; '.join(sorted(run.reseeded.values()))}
         w = run.weight
         g['w'] += w
         for f, v in values.items():
@@ -296,7 +298,7 @@ def finalize(part, cfg, parts):
     viol = [v for p in parts for v in p['violations']]
     unscripted = sum(p['unscripted'] for p in parts)
     for p in parts:
-        for hist, g in p['groups'].items():
+        for hist, g in p['groups'].items():     # keyed (history, world)
             t = groups.get(hist)
             if t is None:
                 groups[hist] = g
@@ -310,11 +312,31 @@ def finalize(part, cfg, parts):
     if unscripted:
         return dict(task=task, executions=execs, violations=[], unscripted=unscripted, groups=0, outcomes=0, sample=None)
     total = sum(p['weight'] for p in parts)
-    if not viol and total != 1:
+    worlds = any(g.get('reseeded') for g in groups.values())
+    if not viol and total != 1 and not worlds:
         raise choice.HarnessError(f"leaf weights sum to {total} for {desc(cfg)}")
+    if worlds:
+        # The library re-seeded a global generator: the later draws of that generator are a fixed function of the seed.
+        # The expectation is taken over the remaining (random) draws only and must be right for EVERY fixed answer
+        # sequence: one group per (history, maximal answer sequence), see choice.world_groups.
+        by_hist = {}
+        for (hist, world), g in groups.items():
+            by_hist.setdefault(hist, []).append((world, g))
+        groups = {}
+        for hist, leaves in by_hist.items():
+            for world, members in choice.world_groups(leaves, cap=40).items():
+                t = {'w': F(0), 'acc': {}, 'rows': members[0]['rows'], 'xy': members[0]['xy'], 'outcomes': set(),
+                     'float': False, 'world': world, 'reseeded': next((m['reseeded'] for m in members if m.get('reseeded')), '')}
+                for m in members:
+                    t['w'] += m['w']
+                    for f, v in m['acc'].items():
+                        t['acc'][f] = t['acc'].get(f, 0) + v
+                    t['outcomes'] |= m['outcomes']
+                    t['float'] = t['float'] or m['float']
+                groups[(hist, world)] = t
     sample = None
     n_out = 0
-    for hist, g in groups.items():
+    for (hist, _world), g in groups.items():
         exp = {f: v / g['w'] for f, v in g['acc'].items()}
         if part == 'inc':
             x, y = g['xy']
@@ -323,6 +345,9 @@ def finalize(part, cfg, parts):
         else:
             ref = reference_batch(cfg)
             ctx = f"data set of {cfg['N']} rows"
+        if g.get('world'):
+            ctx += (f"; the library re-seeded a global generator ({g['reseeded']}): its later draws are a fixed function of "
+                    f"the seed - for the answer sequence {[c for _, _, c in g['world']]}")
         n_out += len(g['outcomes'])
         if sample is None:
             sample = {'config': cfg, 'leaves': execs, 'histories': len(groups),
